@@ -1,6 +1,8 @@
 //! C10: field and extension-field arithmetic is exact modular arithmetic.
 //! The implementation answers at value level (canonical integers in, canonical integers out) for all
-//! three fields and their extensions, and at representation level (raw Montgomery words) for f64.
+//! three fields and their extensions, and at representation level: raw Montgomery words for f64, and
+//! for all fields operands built by operation chains (both words of zero in f62, -ZERO, x - x, ...)
+//! whose results are checked through `as_int`, the library's own `==` and `to_bytes()`.
 //! The oracle is an independent bigint-style implementation (u128 add/double-and-add) of arithmetic
 //! modulo the documented prime and irreducible polynomial.
 use std::sync::mpsc;
@@ -312,6 +314,192 @@ fn run_f64_inner(rng: &mut Rng, out: &mut Out, n: usize) {
     }
 }
 
+// ---------------------------------------------------------------------------------------------
+// representation-level stream for ALL fields: operands are built by operation chains, so that
+// non-canonical stored words take part (f62: both words of zero, words in [M, 2M)); every result r
+// is compared with the oracle at three levels: canonical integers (`as_int`), the library's own
+// `==` against `new(expected)`, and `to_bytes()` against the canonical little-endian bytes.
+//   c10 <field> rep <op> <term> [<term>] = <expected>      answer: `<canon> eq=<t|f> bytes=<t|f>`
+//   c10 <field> rep eq <term> <term>                       answer: `t` | `f`
+//   term = <tag>:<elem>[:<elem>]
+// ---------------------------------------------------------------------------------------------
+#[derive(Clone)]
+pub struct Term { pub tag: &'static str, pub v: E, pub w: Option<E> }
+
+/// tags whose value is zero whatever the argument is
+const ZERO_TAGS: [&str; 7] = ["xnx", "nxx", "xmx", "nz", "nzz", "zmz", "dmd"];
+
+pub fn term_show(t: &Term) -> String {
+    match &t.w { Some(w) => format!("{}:{}:{}", t.tag, show(&t.v), show(w)), None => format!("{}:{}", t.tag, show(&t.v)) }
+}
+
+/// oracle value of a term
+pub fn term_val(s: &Spec, t: &Term) -> E {
+    let zero = vec![0u128; s.deg];
+    let w = || t.w.clone().expect("binary term");
+    match t.tag {
+        "c" => t.v.clone(),
+        "xp1" => o_add(s, &t.v, &o_one(s)),
+        "neg" => o_sub(s, &zero, &t.v),
+        "nn" => t.v.clone(),
+        "add" => o_add(s, &t.v, &w()),
+        "sub" => o_sub(s, &t.v, &w()),
+        "mul" => o_mul(s, &t.v, &w()),
+        "apm" => t.v.clone(),
+        tag if ZERO_TAGS.contains(&tag) => zero,
+        _ => panic!("term"),
+    }
+}
+
+/// the element a term denotes, built with the library's own operations
+pub fn term_build<F: Fld>(t: &Term) -> F {
+    let x = F::from_canon(&t.v);
+    let y = || F::from_canon(t.w.as_ref().expect("binary term"));
+    match t.tag {
+        "c" => x,
+        "xnx" => x + (-x),              // f62: the word M for x != 0
+        "nxx" => (-x) + x,
+        "xmx" => x - x,
+        "nz" => -F::ZERO,
+        "nzz" => -(x + (-x)),           // minus the second zero
+        "zmz" => F::ZERO - F::ZERO,
+        "dmd" => x.double() - (x + x),
+        "xp1" => x + F::ONE,            // with x = p-1: a zero produced by a carry
+        "neg" => -x,
+        "nn" => -(-x),
+        "add" => x + y(),
+        "sub" => x - y(),
+        "mul" => x * y(),
+        "apm" => (x + y()) - y(),       // value x, word possibly in [M, 2M)
+        _ => panic!("term"),
+    }
+}
+
+fn tf(b: bool) -> &'static str { if b { "t" } else { "f" } }
+
+/// canonical little-endian bytes of an element given by canonical integers
+pub fn canon_bytes<F: Fld>(e: &[u128]) -> Vec<u8> {
+    let width = F::ELEMENT_BYTES / e.len();
+    let mut out = Vec::with_capacity(F::ELEMENT_BYTES);
+    for c in e { out.extend_from_slice(&c.to_le_bytes()[..width]); }
+    out
+}
+
+fn rep_answer<F: Fld>(r: F, exp: &[u128]) -> String {
+    let same = r == F::from_canon(exp);
+    let bytes = winter_utils::Serializable::to_bytes(&r) == canon_bytes::<F>(exp);
+    format!("{} eq={} bytes={}", show(&r.to_canon()), tf(same), tf(bytes))
+}
+
+fn rep_case<F: Fld + Send + 'static>(out: &mut Out, s: &Spec, op: &'static str, a: &Term, b: Option<&Term>) {
+    let name = F::NAME;
+    let (va, vb) = (term_val(s, a), b.map(|t| term_val(s, t)));
+    out.count(&format!("{name}:rep:{op}"));
+    out.count(&format!("{name}:rep-operand:{}", a.tag));
+    if op == "eq" {
+        let b = b.expect("eq is binary").clone();
+        let exp = tf(va == vb.clone().unwrap());
+        let a2 = a.clone();
+        out.case(&format!("c10 {name} rep eq {} {}", term_show(a), term_show(&b)), exp, move || with_timeout(move || {
+            tf(term_build::<F>(&a2) == term_build::<F>(&b)).to_string()
+        }));
+        return;
+    }
+    let zero = vec![0u128; s.deg];
+    let exp: E = match op {
+        "id" => va.clone(),
+        "neg" => o_sub(s, &zero, &va),
+        "double" => o_add(s, &va, &va),
+        "square" => o_mul(s, &va, &va),
+        "inv" => o_inv(s, &va),
+        "conj" => if s.deg == 1 { va.clone() } else { o_frob(s, &va) },
+        "add" => o_add(s, &va, vb.as_ref().unwrap()),
+        "sub" => o_sub(s, &va, vb.as_ref().unwrap()),
+        "mul" => o_mul(s, &va, vb.as_ref().unwrap()),
+        "div" => o_mul(s, &va, &o_inv(s, vb.as_ref().unwrap())),
+        _ => panic!("rep op"),
+    };
+    let req = match b {
+        Some(b) => format!("c10 {name} rep {op} {} {} = {}", term_show(a), term_show(b), show(&exp)),
+        None => format!("c10 {name} rep {op} {} = {}", term_show(a), show(&exp)),
+    };
+    let (a2, b2, exp2) = (a.clone(), b.cloned(), exp.clone());
+    out.case(&req, &format!("{} eq=t bytes=t", show(&exp)), move || with_timeout(move || {
+        let x = term_build::<F>(&a2);
+        let r = match (op, b2) {
+            ("id", _) => x,
+            ("neg", _) => -x,
+            ("double", _) => x.double(),
+            ("square", _) => x.square(),
+            ("inv", _) => x.inv(),
+            ("conj", _) => x.conjugate(),
+            ("add", Some(b)) => x + term_build::<F>(&b),
+            ("sub", Some(b)) => x - term_build::<F>(&b),
+            ("mul", Some(b)) => x * term_build::<F>(&b),
+            ("div", Some(b)) => x / term_build::<F>(&b),
+            _ => panic!("rep op"),
+        };
+        rep_answer(r, &exp2)
+    }));
+}
+
+const REP_UNARY: [&str; 6] = ["id", "neg", "double", "square", "inv", "conj"];
+const REP_BINARY: [&str; 5] = ["add", "sub", "mul", "div", "eq"];
+
+fn run_rep<F: Fld + Send + 'static>(rng: &mut Rng, out: &mut Out, n: usize) {
+    let s = spec(F::NAME);
+    let t1 = |tag: &'static str, v: &E| Term { tag, v: v.clone(), w: None };
+    let zero = vec![0u128; s.deg];
+    let mut pm1 = vec![0u128; s.deg];
+    pm1[0] = s.p - 1;
+    let a: E = (0..s.deg).map(|_| 1 + gen_coord(rng, s.p - 1)).collect();
+    // every way of writing zero (f62: the words 0 and M), and a few non-zero words
+    let zeros: Vec<Term> = vec![t1("c", &zero), t1("xnx", &a), t1("nxx", &a), t1("xmx", &a), t1("nz", &zero), t1("nzz", &a),
+        t1("zmz", &zero), t1("xp1", &pm1), t1("xnx", &zero), t1("dmd", &a)];
+    let others: Vec<Term> = vec![t1("c", &a), t1("neg", &a), t1("nn", &a), t1("c", &o_one(&s)), t1("c", &pm1),
+        Term { tag: "apm", v: a.clone(), w: Some(pm1.clone()) }];
+    // 1. exhaustive over the zero forms: unary ops, and binary ops on all pairs of zero forms
+    for z in &zeros {
+        for op in REP_UNARY { rep_case::<F>(out, &s, op, z, None); }
+        for z2 in &zeros {
+            for op in ["add", "sub", "mul", "eq"] { rep_case::<F>(out, &s, op, z, Some(z2)); }
+        }
+        for o in &others {
+            for op in REP_BINARY { rep_case::<F>(out, &s, op, z, Some(o)); rep_case::<F>(out, &s, op, o, Some(z)); }
+        }
+    }
+    // 2. random terms and operations
+    let gen_term = |rng: &mut Rng| -> Term {
+        let v: E = (0..s.deg).map(|_| gen_coord(rng, s.p)).collect();
+        let w: E = (0..s.deg).map(|_| gen_coord(rng, s.p)).collect();
+        match rng.below(16) {
+            0 => Term { tag: "xnx", v, w: None },
+            1 => Term { tag: "nxx", v, w: None },
+            2 => Term { tag: "xmx", v, w: None },
+            3 => Term { tag: "nz", v: zero.clone(), w: None },
+            4 => Term { tag: "nzz", v, w: None },
+            5 => Term { tag: "xp1", v: if rng.below(2) == 0 { pm1.clone() } else { v }, w: None },
+            6 => Term { tag: "neg", v: if rng.below(3) == 0 { zero.clone() } else { v }, w: None },
+            7 => Term { tag: "nn", v, w: None },
+            8 => Term { tag: "add", v, w: Some(w) },
+            9 => { let w2 = if rng.below(3) == 0 { v.clone() } else { w }; Term { tag: "sub", v, w: Some(w2) } }
+            10 => Term { tag: "mul", v, w: Some(w) },
+            11 | 12 => Term { tag: "apm", v, w: Some(w) },
+            13 => Term { tag: "dmd", v, w: None },
+            _ => Term { tag: "c", v, w: None },
+        }
+    };
+    for _ in 0..n {
+        let (ta, tb) = (gen_term(rng), gen_term(rng));
+        let tb = if rng.below(6) == 0 { Term { tag: "neg", v: term_val(&s, &ta), w: None } } else { tb };
+        let op = *rng.pick(&REP_UNARY);
+        rep_case::<F>(out, &s, op, &ta, None);
+        let op = *rng.pick(&REP_BINARY);
+        rep_case::<F>(out, &s, op, &ta, Some(&tb));
+        rep_case::<F>(out, &s, "eq", &ta, Some(&tb));
+    }
+}
+
 pub fn run(rng: &mut Rng, out: &mut Out, n: usize) {
     run_f64_inner(rng, out, 4 * n);
     run_field::<f64::BaseElement>(rng, out, n);
@@ -322,4 +510,13 @@ pub fn run(rng: &mut Rng, out: &mut Out, n: usize) {
     run_field::<QuadExtension<f128::BaseElement>>(rng, out, n);
     run_field::<CubeExtension<f64::BaseElement>>(rng, out, n / 2 + 1);
     run_field::<CubeExtension<f62::BaseElement>>(rng, out, n / 2 + 1);
+    // representation level, all fields (appended: the cases above keep their seeds)
+    run_rep::<f64::BaseElement>(rng, out, n);
+    run_rep::<f62::BaseElement>(rng, out, 2 * n);
+    run_rep::<f128::BaseElement>(rng, out, n);
+    run_rep::<QuadExtension<f64::BaseElement>>(rng, out, n / 2 + 1);
+    run_rep::<QuadExtension<f62::BaseElement>>(rng, out, n / 2 + 1);
+    run_rep::<QuadExtension<f128::BaseElement>>(rng, out, n / 2 + 1);
+    run_rep::<CubeExtension<f64::BaseElement>>(rng, out, n / 4 + 1);
+    run_rep::<CubeExtension<f62::BaseElement>>(rng, out, n / 4 + 1);
 }
